@@ -4,6 +4,7 @@ package main
 
 import (
 	"fmt"
+	"strings"
 	"go/types"
 	"math/big"
 	"sort"
@@ -25,6 +26,7 @@ type Interp struct {
 	pos int
 	pc  []*Term        // asserted literals (not implied ones)
 	model   *Model     // a model of pc (nil if none cached)
+	lastSlice map[int]bool // variables of the last sliced query (nil: last query was over the whole pc)
 	pending []pendingAssert
 	known map[*Term]bool // base literal -> truth under pc
 
@@ -159,6 +161,57 @@ func (in *Interp) check(extra ...*Term) Result {
 	if r == RUnknown {
 		panic(pathAbort{kind: "solver-unknown", msg: fmt.Sprintf("solver answered unknown/error (%v)", in.w.solver.errs)})
 	}
+	in.lastSlice = nil
+	return r
+}
+
+// checkSliced decides pc ∧ extra using only the literals of pc that share
+// variables (transitively) with extra.  Sound because pc is satisfiable (path
+// invariant) and the dropped literals have disjoint variables.  Requires a
+// cached model of pc so that a full model can be assembled afterwards.
+func (in *Interp) checkSliced(extra ...*Term) Result {
+	if in.model == nil || in.w.cfg.NoSlice {
+		return in.check(extra...)
+	}
+	rel := map[int]bool{}
+	for _, e := range extra {
+		for _, v := range e.vars {
+			rel[v] = true
+		}
+	}
+	used := make([]bool, len(in.pc))
+	var lits []*Term
+	for changed := true; changed; {
+		changed = false
+		for i, l := range in.pc {
+			if used[i] {
+				continue
+			}
+			hit := false
+			for _, v := range l.vars {
+				if rel[v] {
+					hit = true
+					break
+				}
+			}
+			if hit {
+				used[i] = true
+				lits = append(lits, l)
+				for _, v := range l.vars {
+					if !rel[v] {
+						rel[v] = true
+						changed = true
+					}
+				}
+			}
+		}
+	}
+	lits = append(lits, extra...)
+	r := in.w.solver.Check(lits)
+	if r == RUnknown {
+		panic(pathAbort{kind: "solver-unknown", msg: fmt.Sprintf("solver answered unknown/error (%v)", in.w.solver.errs)})
+	}
+	in.lastSlice = rel
 	return r
 }
 
@@ -172,13 +225,25 @@ func (in *Interp) addLit(l *Term) {
 	}
 }
 
-// fetchModel reads the solver's current model (after a sat answer).
+// fetchModel reads the solver's current model (after a sat answer).  After a
+// sliced query only the slice's variables are read; the others keep the values
+// of the cached model of pc.
 func (in *Interp) fetchModel() *Model {
-	terms := make([]*Term, len(in.inputs))
-	for i, r := range in.inputs {
-		terms[i] = r.term
+	var terms []*Term
+	for _, r := range in.inputs {
+		if in.lastSlice == nil || in.lastSlice[r.term.id] {
+			terms = append(terms, r.term)
+		}
 	}
-	return newModel(in.w.solver.Values(terms))
+	m := newModel(in.w.solver.Values(terms))
+	if in.lastSlice != nil && in.model != nil {
+		for k, v := range in.model.vals {
+			if _, ok := m.vals[k]; !ok {
+				m.vals[k] = v
+			}
+		}
+	}
+	return m
 }
 
 // decide resolves a symbolic condition on this path, forking when both
@@ -218,7 +283,7 @@ func (in *Interp) decide(t *Term) bool {
 		if !mv {
 			other = t
 		}
-		if in.check(other) == RUnsat {
+		if in.checkSliced(other) == RUnsat {
 			forced = true
 		} else {
 			am := in.fetchModel()
@@ -298,7 +363,7 @@ func (in *Interp) assumeTerm(t *Term) {
 	}
 	if mv, ok := in.model.EvalBool(t); ok && mv {
 		// witnessed feasible
-	} else if in.check(t) == RUnsat {
+	} else if in.checkSliced(t) == RUnsat {
 		panic(pathAbort{kind: "dead", msg: "assumption infeasible"})
 	} else {
 		in.model = in.fetchModel()
@@ -433,6 +498,9 @@ func (in *Interp) choiceList() []int {
 // and at the end of the path); this is sound because every extension of the
 // current path is explored and flushed.
 func (in *Interp) assertTerm(cond *Term, label string, kfID string, region *Term) {
+	if !in.w.labelSelected(label) {
+		return
+	}
 	st := in.stat(label)
 	if v, ok := in.litKnown(cond); ok && v || cond.IsTrue() {
 		st.Discharged++
@@ -492,7 +560,7 @@ func (in *Interp) flush() {
 			return
 		}
 		conj := in.ts.And(conds...)
-		if in.check(in.ts.Not(conj)) == RUnsat {
+		if in.checkSliced(in.ts.Not(conj)) == RUnsat {
 			for _, p := range rest {
 				in.stat(p.label).Discharged++
 				in.learn(p.cond, true)
@@ -588,4 +656,20 @@ var _ = types.Typ
 
 func (in *Interp) whereAmI() string {
 	return ""
+}
+
+// labelSelected: with -only, assertions labelled for another property ("Cnn:...") are skipped.
+func (w *Worker) labelSelected(label string) bool {
+	if len(w.cfg.Only) == 0 {
+		return true
+	}
+	if len(label) < 4 || label[0] != 'C' || label[3] != ':' {
+		return true
+	}
+	for _, p := range w.cfg.Only {
+		if strings.HasPrefix(label, p) {
+			return true
+		}
+	}
+	return false
 }
